@@ -1,6 +1,16 @@
 package main
 
-import "strings"
+import (
+	"go/types"
+	"strings"
+
+	"golang.org/x/tools/go/ssa"
+)
+
+func isIntLike(t types.Type) bool {
+	b, ok := t.Underlying().(*types.Basic)
+	return ok && b.Info()&types.IsInteger != 0
+}
 
 // Go-side handling of quantifiers (DESIGN appendix, item 9). The solvers run
 // with MBQI off, so that a query never hangs in model search; what e-matching
@@ -150,7 +160,7 @@ func (e *Exec) candidates(st *State, sks []*Term) []*Term {
 	seen := map[*Term]bool{}
 	var out []*Term
 	add := func(t *Term) {
-		if t != nil && t.S == SInt && !seen[t] && len(out) < 14 {
+		if t != nil && t.S == SInt && !seen[t] && len(out) < 20 {
 			seen[t] = true
 			out = append(out, t)
 		}
@@ -166,6 +176,24 @@ func (e *Exec) candidates(st *State, sks []*Term) []*Term {
 	if st != nil {
 		for i := len(st.frames) - 1; i >= 0 && i >= len(st.frames)-2; i-- {
 			fr := st.frames[i]
+			// integer registers (e.g. an index loaded from a slice), latest first
+			var regs []*Term
+			for _, b := range fr.fn.Blocks {
+				for _, in := range b.Instrs {
+					v, ok := in.(ssa.Value)
+					if !ok {
+						continue
+					}
+					if x, has := fr.env[v]; has {
+						if t, isT := x.(*Term); isT && t.S == SInt && !t.IsLit() && isIntLike(v.Type()) {
+							regs = append(regs, t)
+						}
+					}
+				}
+			}
+			for k := len(regs) - 1; k >= 0 && k >= len(regs)-6; k-- {
+				add(regs[k])
+			}
 			for _, a := range fr.fn.Locals {
 				lc := fr.locals[a]
 				if lc == nil {
@@ -173,6 +201,10 @@ func (e *Exec) candidates(st *State, sks []*Term) []*Term {
 				}
 				if t, ok := lc.v.(*Term); ok && !t.IsLit() {
 					add(t)
+					if t.S == SSlice {
+						add(SlLen(t))
+						add(Sub(SlLen(t), IntLit(1)))
+					}
 				}
 			}
 		}
